@@ -859,6 +859,34 @@ def h_stop_gradient(ctx, eqn, a):
     return a
 
 
+def h_qr(ctx, eqn, M):
+    """Kernel axiom for the reduced QR factorisation: Q R = M, Q^T Q = I, R upper triangular."""
+    from . import prims
+
+    if eqn.params.get("full_matrices") or eqn.params.get("pivoting"):
+        raise Unsupported("qr with full_matrices / pivoting")
+    M = M if is_obj(M) else to_obj(M)
+    m, n = M.shape
+    k = min(m, n)
+    cid = prims._count("qr")
+    Q, qs = prims.fresh_array((m, k), f"Qf{cid}")
+    R, rs = prims.fresh_array((k, n), f"Rf{cid}", mask=lambda ix: ix[0] <= ix[1])
+    prims.CALL_LOG.append({"name": "qr", "operands": [M], "out_sids": [qs, rs], "native": lambda a: [np.asarray(x) for x in jnp.linalg.qr(jnp.asarray(a), mode="reduced")]})
+    for i_ in range(m):
+        for j in range(n):
+            acc = P.ZERO
+            for l in range(k):
+                acc = acc + Q[i_, l] * R[l, j]
+            ctx.assume_eq(f"qr#{cid}.QR=M[{i_},{j}]", acc - M[i_, j])
+    for a in range(k):
+        for b in range(a, k):
+            acc = P.ZERO
+            for l in range(m):
+                acc = acc + Q[l, a] * Q[l, b]
+            ctx.assume_eq(f"qr#{cid}.QtQ=I[{a},{b}]", acc - (P.ONE_V if a == b else P.ZERO))
+    return [Q, R]
+
+
 HANDLERS = {
     "add": _bin(lambda x, y: x + y),
     "add_any": _bin(lambda x, y: x + y),
@@ -916,6 +944,7 @@ HANDLERS = {
     "scan": h_scan,
     "while": h_while,
     "stop_gradient": h_stop_gradient,
+    "qr": h_qr,
     "scatter-add": h_scatter_add,
     "scatter_add": h_scatter_add,
 }
